@@ -185,3 +185,17 @@ def sample(r):
         return dict(kind='parse', fmt=r['fmt'], first_line=''.join(chr(c) for c in r['lines'][0]) if r['lines'] else None,
                     result=r['result'][:24])
     return dict(kind='hexmode', file_len=len(r['data']), lines=len(r['lines']))
+
+
+def corrupt(r):
+    if r['kind'] == 'dump':
+        if not r['lines']:
+            return None
+        r['lines'] = r['lines'][:-1]
+    elif r['kind'] == 'parse':
+        if not r['known']:
+            return None
+        r['result'] = r['result'] + [0]
+    else:
+        r['data'] = r['data'] + [0]
+    return r
